@@ -264,3 +264,30 @@ Definition view_answer (answers : list vrec) (qname : list N) (qtype : N) : list
 Definition view_has_record (answers : list vrec) (qname : list N) (qtype : N) : bool :=
   match view_answer answers qname qtype with [] => false | _ => true end.
 
+
+(* -------- views.ServeDNS as a whole (session 4): the guards, the loop over v.views in declaration order and,
+   inside the first view whose networks contain the client, the record selection above. Outcome: the query
+   goes on down the chain (no views / internal writer / no client address / no view contains the client /
+   the FIRST containing view has no record for the question: `break`), or view i answers with these records.
+   A later view is never consulted once one contained the client. *)
+Inductive views_outcome := VNext | VAnswer (view : nat) (recs : list nat).
+Fixpoint views_loop (views : list (ipset * list vrec)) (a : addr) (qname : list N) (qtype : N) (i : nat) : views_outcome :=
+  match views with
+  | [] => VNext
+  | cv :: rest =>
+      if negb (set_contains (fst cv) a) then views_loop rest a qname qtype (S i) else   (* continue *)
+      match view_answer (snd cv) qname qtype with
+      | [] => VNext                                                                      (* break *)
+      | l => VAnswer i l
+      end
+  end.
+Definition views_serve (views : list (ipset * list vrec)) (r : remote) (qname : list N) (qtype : N) : views_outcome :=
+  match views with
+  | [] => VNext
+  | _ =>
+      if writer_internal r then VNext else
+      match writer_remote_ip r with
+      | None => VNext
+      | Some a => views_loop views a qname qtype 0
+      end
+  end.
